@@ -16,7 +16,7 @@ for d in /verif/seeded/C[0-9][0-9][a-z]; do
   n=$(basename "$d")
   p=$(echo "$n" | cut -c1-3)
   if [ "${ALL:-0}" = 1 ]; then checks=""; else checks=$(rel "$p"); fi
-  r=$(/verif/tools/seedrun.sh "$d" $checks 2>&1)
+  r=$("${VH_VERIF_DIR:-/verif}/tools/seedrun.sh" "$d" $checks 2>&1)
   own=MISSED; echo "$r" | grep '^CAUGHT BY' | grep -q " $p" && own=caught
   echo "$n | own-check:$own | $(echo "$r" | grep -E '^suite') | $(echo "$r" | grep '^CAUGHT BY') | $(echo "$r" | grep -E 'rc=3' | tr '\n' ';' | cut -c1-300)" >> "$OUT"
 done
